@@ -41,6 +41,11 @@ def run_case(case):
     try:
         c = w.c
         c.replay_filter = lambda m: not str(m.get(11, "")).startswith("dec")
+        # the journal is shared with another session whose outbound history overlaps in numbers
+        from asyncfix.message import MessageDirection
+        foreign = w.j.create_or_load("OTHER_T", "OTHER_S")
+        for n in range(1, 9):
+            w.j.persist_msg(refs.frame("D", n, "OTHER_S", "OTHER_T", [(11, f"foreign{n}"), (55, "F")]), foreign, MessageDirection.OUTBOUND)
         w.connect()
         w.logon()
         truth = {}  # n -> dict(kind, bytes, fields)
@@ -66,7 +71,7 @@ def run_case(case):
                 w.writer.broken = None
                 if num_out(c) != n_before + 1:
                     return None  # the send did not consume a number: skip shape
-                row = {seq: m for (_, d, seq, m) in journal_rows(w.j) if d == 1}.get(n_before)
+                row = {seq: m for (k_, d, seq, m) in journal_rows(w.j) if d == 1 and k_ == c._session.key}.get(n_before)
                 if row is None:
                     truth[n_before] = {"kind": "hole"}
                 else:
@@ -78,7 +83,7 @@ def run_case(case):
                 # a message that was sent but is missing from the journal (lost / pruned row)
                 w.send(_mk(k, uid))
                 note_written("app")
-                w.j.conn.execute("DELETE FROM message WHERE seqNo = ? AND direction = 1", (n_before,))
+                w.j.conn.execute("DELETE FROM message WHERE seqNo = ? AND direction = 1 AND session = ?", (n_before, c._session.key))
                 w.j.conn.commit()
                 truth[n_before] = {"kind": "hole"}
             elif k == "tr":
@@ -132,7 +137,9 @@ def one_request(w, truth, last, b, e, awaiting, idx, first_class, case):
     st0 = c.connection_state.name
     live0 = num_out(c)
     stored0 = stored_counters(w.j, w.T, w.S)
-    rows0 = {seq: m for (_, d, seq, m) in journal_rows(w.j) if d == 1}
+    skey = w.c._session.key
+    rows0 = {seq: m for (k_, d, seq, m) in journal_rows(w.j) if d == 1 and k_ == skey}
+    foreign0 = [r for r in journal_rows(w.j) if r[0] != skey]
     valid = 1 <= b <= last and (e == 0 or e >= b)
     R = last if (e == 0 or e > last) else e
     w.take()
@@ -166,7 +173,12 @@ def one_request(w, truth, last, b, e, awaiting, idx, first_class, case):
                  live=(live0, live1), stored=(stored0, stored1))
     if c.connection_state.name != st0:
         return V("side_effect_state", "afterwards the connection state is what it was before, also when the request is invalid")
-    rows1 = {seq: m for (_, d, seq, m) in journal_rows(w.j) if d == 1}
+    rows1 = {seq: m for (k_, d, seq, m) in journal_rows(w.j) if d == 1 and k_ == skey}
+    if [r for r in journal_rows(w.j) if r[0] != skey] != foreign0:
+        return V("side_effect_other_session", "afterwards the journaled messages outside the range are what they were before")
+    for d, f, raw in frames:
+        if str(d.get("11", "")).startswith("foreign"):
+            return V("reply_contains_foreign_session_message", "every journaled application message in the range (of this session) is retransmitted")
     lo, hi = (b, R) if valid else (None, None)
     for n in sorted(set(rows0) | set(rows1)):
         inside = valid and lo <= n <= hi
